@@ -60,8 +60,10 @@ def run(report: Report, tier, seed):
         "O10.2(e): assigned local slot ids lie in [0,256) and are pairwise distinct (proved under C10)",
         "requires: a TealComponent references at most one subroutine (only `callsub X` does)",
         "A4 L-call (meta-lemma): the per-call-site contract + AVM frame discipline give caller-state preservation for whole programs",
-        "not yet under contract (bounded only): SubroutineCall.__teal__, SubroutineEval.evaluate, frame.py, findRecursionPoints")
-    run_contracts(report, [("contracts.c02_spill", "Spill", "O2.4")])
+        "graph_search is under contract (pyvc): True iff `end` is reachable from `start` by >= 1 edges; reachability is the least fixed point of the two closure rules, whose induction principle "
+        "is used once, instantiated with the final visited set (hypothesis lfp-induction); node equality is object identity",
+        "not yet under contract (bounded only): SubroutineEval.evaluate, frame.py, the comprehension in findRecursionPoints that calls graph_search per call edge (exhaustive small call graphs)")
+    run_contracts(report, [("contracts.c02_spill", "Spill", "O2.4"), ("contracts.c02_graph", "GraphSearch", "O2.3")])
     from .frag import run_fragcheck
     run_fragcheck(report, "O2.1", classes={"SubroutineCall", "Return"}, tier=tier)
     fails = bounded(report, tier, seed)
@@ -88,8 +90,11 @@ def run(report: Report, tier, seed):
                    "meaning": "after `before; callsub f; after` the stack is base ++ result(f) for symbolic numArgs, len(slots), version"})
 
     def search(fn, obs):
+        if "graph" in fn:
+            return {"input": {"graph": gf[0]}, "what": gf[0]["what"]} if gf else None
         return fails[0] if fails else None
 
+    report.settle_undecided(search)
     report.settle_refuted(search)
     if fails and not any(o.status == "refuted" for o in report.obs):
         f = fails[0]
